@@ -2,7 +2,7 @@
 import importlib
 import sys
 
-MODELS = ['refvlq', 'refsm', 'refjs']
+MODELS = ['refvlq', 'refsm', 'refjs', 'refscope']
 
 
 def main():
